@@ -200,6 +200,12 @@ type Job struct {
 	Solver     string  `json:"solver"`
 }
 
+// WitnessOut: a model of a completed path with the predicted observations.
+type WitnessOut struct {
+	W   *Violation        `json:"w"`
+	Obs map[string]string `json:"obs"`
+}
+
 type JobResult struct {
 	Job         Job            `json:"job"`
 	Paths       int            `json:"paths"`
@@ -216,6 +222,7 @@ type JobResult struct {
 	Violations  []*Violation   `json:"violations,omitempty"`
 	Witness     *Violation     `json:"witness,omitempty"`
 	WitnessObs  map[string]string `json:"witness_obs,omitempty"`
+	MoreWitness []WitnessOut      `json:"more_witness,omitempty"`
 	Reach       map[string]int `json:"reach,omitempty"`
 	KnownHit    map[string]int `json:"known_hit,omitempty"`
 	Asserts     map[string]int `json:"asserts,omitempty"`
@@ -288,6 +295,9 @@ func (in *Interp) runJob(job Job) (res *JobResult) {
 	if run.witness != nil {
 		res.Witness = &Violation{Harness: job.Harness, Args: job.Args, Kind: "witness", Model: run.witness, Choices: run.witnessChoices}
 		res.WitnessObs = run.witnessObs
+		for _, w := range run.moreWitness {
+			res.MoreWitness = append(res.MoreWitness, WitnessOut{W: &Violation{Harness: job.Harness, Args: job.Args, Kind: "witness", Model: w.model, Choices: w.choices}, Obs: w.obs})
+		}
 	}
 	for fn := range in.fnSeen {
 		if p := pkgPathOf(fn); strings.HasPrefix(p, modPath) && !strings.HasPrefix(fn.Name(), "verif") && !strings.HasPrefix(fn.Name(), "Verif") {
